@@ -5,62 +5,5 @@ action at one server, a tree request leaving a server (`TransmitMsg → requestT
 `RequestTree` on its way to the other server — version 0 for a peer of an old release), the handling of
 one message in flight (its replies travel back), the same without consuming it (a duplicate), or its
 loss.  Any interleaving of these is a run.  Core-only, executable. -/
-namespace C06
-
-/-- `&Roster{}`: what `handleRequestRoster` sends when it knows no such roster -/
-def emptyRoster : Roster := { id := 0, list := [] }
-
-/-- a reply, as the message its addressee handles -/
-def Out.toMsg : Out → Msg
-  | .responseTree tm ro => .responseTree (some tm) ro
-  | .treeMarshal tm => .treeMarshal tm
-  | .requestRoster rid => .requestRoster rid
-  | .roster ro => .sendRoster (ro.getD emptyRoster)
-
-inductive Site where
-  | A | B
-  deriving DecidableEq, Repr
-
-def Site.other : Site → Site
-  | .A => .B
-  | .B => .A
-
-/-- the two overlays and, per server, the messages on their way to it -/
-structure Net where
-  ovl   : Site → Ovl
-  inbox : Site → List Msg
-
-def upd {α : Type} (f : Site → α) (s : Site) (v : α) : Site → α := fun s' => if s' = s then v else f s'
-
-inductive NetEv where
-  | loc (s : Site) (l : Local)
-  | ask (s : Site) (id version : Nat)
-  | deliver (s : Site) (i : Nat)
-  | redeliver (s : Site) (i : Nat)
-  | drop (s : Site) (i : Nat)
-
-/-- `s` handles `m`; its replies are on their way to the other server -/
-def Net.handleAt (n : Net) (s : Site) (m : Msg) (rest : List Msg) : Net :=
-  let r := handle (n.ovl s) m
-  let inbox := upd n.inbox s rest
-  { ovl := upd n.ovl s r.1, inbox := upd inbox s.other (inbox s.other ++ r.2.map Out.toMsg) }
-
-def netStep (n : Net) : NetEv → Net
-  | .loc s l => { n with ovl := upd n.ovl s (localStep (n.ovl s) l) }
-  | .ask s id v =>
-    let o := n.ovl s
-    { ovl := upd n.ovl s (localStep o (.reqSend id)),
-      inbox := if o.wouldRequest id then upd n.inbox s.other (n.inbox s.other ++ [.requestTree id v]) else n.inbox }
-  | .deliver s i =>
-    match (n.inbox s)[i]? with
-    | none => n
-    | some m => n.handleAt s m ((n.inbox s).eraseIdx i)
-  | .redeliver s i =>
-    match (n.inbox s)[i]? with
-    | none => n
-    | some m => n.handleAt s m (n.inbox s)
-  | .drop s i => { n with inbox := upd n.inbox s ((n.inbox s).eraseIdx i) }
-
-def netRun (n : Net) (evs : List NetEv) : Net := evs.foldl netStep n
-
-end C06
+/-! The definitions (`Net`, `NetEv`, `netStep`, `netRun`, `Out.toMsg`, `emptyRoster`) live in `Model/C06.lean` since the line-protocol
+driver runs them too (ops `n.*`); this module is kept as the place where the two-server model is described. -/
